@@ -390,6 +390,9 @@ impl MetadataClient for LocalMetadataClient {
             return Err(crate::Error::ShardNotFound(shard_id.to_string()));
         }
 
+        #[cfg(feature = "verif-hooks")]
+        crate::verif_hooks::sync_point("local.update_shard.after_check");
+
         // Update with incremented generation
         let mut new_metadata = metadata.clone();
         new_metadata.generation = expected_generation + 1;
